@@ -23,6 +23,11 @@ type CaseC13 struct {
 	Count   string     `json:"count,omitempty"` // uint8|uint16|uint32 (list)
 	LE      bool       `json:"le,omitempty"`
 	Prior   HexBytes   `json:"prior,omitempty"` // bytes already in the output buffer
+	// output buffer shape for the write side: pre-sized to Cap, Fill bytes of 0xEE written, Fill-Keep of them read
+	// away (so the buffer may recycle its own storage, which still holds old bytes, when the field is written)
+	Cap  int `json:"cap,omitempty"`
+	Fill int `json:"fill,omitempty"`
+	Keep int `json:"keep,omitempty"`
 	Tail    HexBytes   `json:"tail,omitempty"`  // bytes after the field on the read side
 }
 
@@ -118,6 +123,18 @@ func c13ReadList(c *CaseC13, buf *bytes.Buffer, defaultVariant bool) ([]string, 
 	}
 }
 
+// c13OutBuffer builds the output buffer of the write side and returns it with its current unread content.
+func c13OutBuffer(c *CaseC13) (*bytes.Buffer, []byte) {
+	if c.Cap > 0 {
+		buf := bytes.NewBuffer(make([]byte, 0, c.Cap))
+		buf.Write(bytes.Repeat([]byte{0xEE}, c.Fill))
+		buf.Next(max(0, c.Fill-c.Keep))
+		buf.Write(c.Prior)
+		return buf, append([]byte{}, buf.Bytes()...)
+	}
+	return bytes.NewBuffer(append([]byte{}, c.Prior...)), append([]byte{}, c.Prior...)
+}
+
 func oracleC13(c *CaseC13) *Failure {
 	pad := byte(c.Pad)
 	isDefault := c.Pad == ' ' && !c.Left
@@ -140,7 +157,7 @@ func oracleC13(c *CaseC13) *Failure {
 				name = "WriteFixedString"
 			}
 			// write side
-			buf := bytes.NewBuffer(append([]byte{}, c.Prior...))
+			buf, prior := c13OutBuffer(c)
 			err, p, _ := safely(func() error {
 				if dv {
 					return codec.WriteFixedString(buf, string(c.S), c.N)
@@ -154,10 +171,10 @@ func oracleC13(c *CaseC13) *Failure {
 				return failf("C13/"+name+"/error", "returned error %v", err)
 			}
 			out := buf.Bytes()
-			if len(out) < len(c.Prior) || !bytes.Equal(out[:len(c.Prior)], c.Prior) {
+			if len(out) < len(prior) || !bytes.Equal(out[:len(prior)], prior) {
 				return failf("C13/"+name+"/clobber", "bytes already in the buffer changed")
 			}
-			got := out[len(c.Prior):]
+			got := out[len(prior):]
 			want := refFixedWrite(c.S, c.N, pad, c.Left)
 			if !bytes.Equal(got, want) {
 				return failf("C13/"+name+"/bytes", "N=%d pad=%#x %s s=%q: wrote %q (%d bytes), reference %q", c.N, c.Pad, side, clip(c.S), clip(got), len(got), clip(want))
@@ -202,7 +219,7 @@ func oracleC13(c *CaseC13) *Failure {
 	csize := NSize(c.Count)
 	for _, dv := range variants {
 		name := fmt.Sprintf("FixedStringList(default=%v,LE=%v)", dv, c.LE)
-		buf := bytes.NewBuffer(append([]byte{}, c.Prior...))
+		buf, prior := c13OutBuffer(c)
 		err, p, _ := safely(func() error { return c13WriteList(c, buf, strs(c.L), dv) })
 		if p != nil {
 			return failf("C13/Write"+name+"/panic", "panicked: %v", p)
@@ -215,10 +232,10 @@ func oracleC13(c *CaseC13) *Failure {
 			want = append(want, refFixedWrite(e, c.N, pad, c.Left)...)
 		}
 		out := buf.Bytes()
-		if len(out) < len(c.Prior) || !bytes.Equal(out[:len(c.Prior)], c.Prior) {
+		if len(out) < len(prior) || !bytes.Equal(out[:len(prior)], prior) {
 			return failf("C13/Write"+name+"/clobber", "bytes already in the buffer changed")
 		}
-		if got := out[len(c.Prior):]; !bytes.Equal(got, want) {
+		if got := out[len(prior):]; !bytes.Equal(got, want) {
 			return failf("C13/Write"+name+"/bytes", "N=%d pad=%#x %s count=%s %d elements: wrote %s, reference %s", c.N, c.Pad, side, c.Count, len(c.L), hexClip(got), hexClip(want))
 		}
 		wire := putUint(nil, uint64(len(c.WL)), csize, c.LE)
@@ -281,12 +298,22 @@ var utf8Bits = [][]byte{[]byte("é"), []byte("中"), []byte("\xe9"), []byte("\xc
 
 func genBytesBiased(rt *rapid.T, label string, l int, pad byte) []byte {
 	out := make([]byte, 0, l)
-	mode := rapid.IntRange(0, 5).Draw(rt, label+".mode")
+	mode := rapid.IntRange(0, 6).Draw(rt, label+".mode")
 	if mode == 0 { // all pad
 		return bytes.Repeat([]byte{pad}, l)
 	}
+	if mode == 6 && l >= 2 { // runs of the pad byte at either end, data in between
+		a := rapid.IntRange(0, l-1).Draw(rt, label+".runa")
+		b := rapid.IntRange(0, l-1-a).Draw(rt, label+".runb")
+		mid := l - a - b
+		out := bytes.Repeat([]byte{pad}, a)
+		for i := 0; i < mid; i++ {
+			out = append(out, rapid.SampledFrom([]byte{'1', '2', 'A', 'x', 0x80, pad ^ 1, '5'}).Draw(rt, label+".mid"))
+		}
+		return append(out, bytes.Repeat([]byte{pad}, b)...)
+	}
 	bg := rapid.OneOf(
-		rapid.SampledFrom([]byte{pad, pad, ' ', '0', 0, 'A', 'z', 0x80, 0xFF, 0xC3, 0xA9, 0xE9, '\t', '\n', '\r', 0x0b, 0x0c, 0x85, 0xA0, 0x7f, 0x1f}),
+		rapid.SampledFrom([]byte{pad, pad, ' ', '0', 0, 'A', 'z', 0x80, 0xFF, 0xC3, 0xA9, 0xE9, '\t', '\n', '\r', 0x0b, 0x0c, 0x85, 0xA0, 0x7f, 0x1f, '-', '-', '+', '.', ',', '0', '1', '9'}),
 		rapid.Byte(),
 	)
 	for len(out) < l {
@@ -306,6 +333,12 @@ func genC13(rt *rapid.T) *CaseC13 {
 	c.Left = rapid.Bool().Draw(rt, "left")
 	if rapid.IntRange(0, 4).Draw(rt, "prior") == 0 {
 		c.Prior = rapid.SliceOfN(rapid.Byte(), 1, 9).Draw(rt, "priorBytes")
+	}
+	if rapid.IntRange(0, 4).Draw(rt, "shape") == 0 {
+		// recycled buffer: little room at the end, most of the content already read
+		c.Cap = rapid.SampledFrom([]int{64, 256, 1024, 4096}).Draw(rt, "cap")
+		c.Keep = rapid.SampledFrom([]int{0, 1, 5}).Draw(rt, "keep")
+		c.Fill = c.Cap - rapid.IntRange(0, min(c.Cap/2-8, 2*c.N+8)).Draw(rt, "room")
 	}
 	if rapid.IntRange(0, 2).Draw(rt, "tail") == 0 {
 		c.Tail = rapid.SliceOfN(rapid.Byte(), 1, 9).Draw(rt, "tailBytes")
@@ -375,6 +408,9 @@ func genC13(rt *rapid.T) *CaseC13 {
 	}
 	if c.N == 0 {
 		cls = append(cls, "N=0")
+	}
+	if c.Cap > 0 {
+		cls = append(cls, "recycled-output-buffer")
 	}
 	Col.Case(Hash64(JSONOf(c)), nt, cls...)
 	if Col.WantSample(c.Variant) {
